@@ -57,7 +57,7 @@ impl<'a> IrEmitter<'a> {
                 let field_tokens: Vec<TokenStream> = fields
                     .iter()
                     .map(|(fname, fval)| {
-                        let fn_ident = format_ident!("{}", Self::escape_keyword(fname));
+                        let fn_ident = Self::emit_member(fname)?;
                         let emitted = self.emit_expr(fval)?;
                         let target_type = self.struct_field_types.get(&(name.to_string(), fname.clone()));
                         let conversion = determine_conversion(fval, target_type, ConversionContext::StructField);
@@ -74,7 +74,8 @@ impl<'a> IrEmitter<'a> {
 
             let mut out_fields: Vec<TokenStream> = Vec::new();
             for fname in field_names {
-                let fn_ident = format_ident!("{}", Self::escape_keyword(fname));
+                // A newtype's only field is positional (`0`); `Name { 0: value }` is valid Rust for it.
+                let fn_ident = Self::emit_member(fname)?;
                 if let Some(fval) = provided.get(fname.as_str()) {
                     let emitted = self.emit_expr(fval)?;
                     let target_type = self.struct_field_types.get(&(name.to_string(), fname.clone()));
